@@ -39,7 +39,8 @@ package f32
 //@ requires strided(dst, int(idst), int(n), int(incDst))
 //@ writes dst[int(idst)+k*int(incDst)] for k in 0..int(n)
 //@ reads x[int(ix)+k*int(incX)] for k in 0..int(n) ; y[int(iy)+k*int(incY)] for k in 0..int(n)
-//@ ensures disjoint(dst, x) && disjoint(dst, y) && int(incDst) != 0 ==> forall(k, 0, int(n), same(dst[int(idst)+k*int(incDst)], alpha*old(x[int(ix)+k*int(incX)]) + old(y[int(iy)+k*int(incY)])))
+// thorough tier only: three strided address families; 60-80 s with the (sound) loop-head havoc
+//@ ensures [thorough] disjoint(dst, x) && disjoint(dst, y) && int(incDst) != 0 ==> forall(k, 0, int(n), same(dst[int(idst)+k*int(incDst)], alpha*old(x[int(ix)+k*int(incX)]) + old(y[int(iy)+k*int(incY)])))
 
 //@ func DotUnitary DdotUnitary props: C01(frame) C07(safety) C08
 //@ requires len(y) >= len(x)
@@ -125,4 +126,3 @@ package f32
 //@ let ky = ite(int(incY) < 0, -(int(n)-1)*int(incY), 0)
 //@ writes y[ky+k*int(incY)] for k in 0..int(n)
 //@ reads a[i*int(lda)+j] for i in 0..int(m), j in 0..int(n) ; x[ite(int(incX) < 0, -(int(m)-1)*int(incX), 0)+i*int(incX)] for i in 0..int(m)
-
